@@ -490,3 +490,53 @@ func registerAlias(m map[string]intrinsicFn) {
 	m[dv+"AliasUint32ToByte"] = toByte(4)
 	m[dv+"AliasUint16ToByte"] = toByte(2)
 }
+
+// ---- encoding/json Marshal/Unmarshal as a lossless box (wire format outside every claim) ----
+
+func registerJSONBox(m map[string]intrinsicFn) {
+	m["encoding/json.Marshal"] = func(in *Interp, fn *ssa.Function, args []Value) Value {
+		iv := args[0].(IfaceV)
+		saveMemo := in.memo
+		in.memo = map[interface{}]interface{}{}
+		val := in.cloneValue(in.derefAll(iv.V))
+		in.memo = saveMemo
+		in.gobVals = append(in.gobVals, val)
+		k := len(in.gobVals) - 1
+		bs := []*Term{in.tb.Const(8, 'J'), in.tb.Const(8, 'S'), in.tb.Const(8, 'N'), in.tb.Const(8, '#'),
+			in.tb.Const(8, uint64(k>>24)), in.tb.Const(8, uint64(k>>16)), in.tb.Const(8, uint64(k>>8)), in.tb.Const(8, uint64(k))}
+		in.abstractUsed = true
+		return TupleV{in.byteSliceOf(bs), IfaceV{}}
+	}
+	m["encoding/json.Unmarshal"] = func(in *Interp, fn *ssa.Function, args []Value) Value {
+		data := args[0].(SliceV)
+		if data.Len != 8 {
+			return in.newError("json: not a boxed value")
+		}
+		var hdr [8]byte
+		for i := range hdr {
+			t := in.sliceGet(data, i).(*Term)
+			if !t.IsConst() {
+				return in.newError("json: symbolic bytes are never a valid box")
+			}
+			hdr[i] = byte(t.C)
+		}
+		if string(hdr[:4]) != "JSN#" {
+			return in.newError("json: bad input")
+		}
+		k := int(hdr[4])<<24 | int(hdr[5])<<16 | int(hdr[6])<<8 | int(hdr[7])
+		if k >= len(in.gobVals) {
+			return in.newError("json: bad input")
+		}
+		tgt, ok := args[1].(IfaceV).V.(PtrV)
+		if !ok || tgt.N == nil {
+			return in.newError("json: Unmarshal(non-pointer)")
+		}
+		saveMemo := in.memo
+		in.memo = map[interface{}]interface{}{}
+		val := in.cloneValue(in.gobVals[k])
+		in.memo = saveMemo
+		in.abstractUsed = true
+		in.store(tgt, val)
+		return IfaceV{}
+	}
+}
